@@ -526,6 +526,27 @@ pub fn for_each_tree(sc: &TreeScope, st: &mut Striper, visit: &mut dyn FnMut(&Te
       }
     }
   }
+  // deepest scopes only: Replace(Replace(leaf, every pair), every single) - the outer source sees the
+  // columns and the end information an inner ReplaceSource computes after two corrections
+  if sc.level3 && sc.repl_max_leaf >= 3 {
+    for l in &sc.small_leaves {
+      let text = model::model_text(l);
+      let rs = ReplScope { names2: false, contents1: &[], contents2: &["", "X", "\n"], names1: false, enforce1: false, max: 2, over: 1, text: &text };
+      for_each_replset(&rs, &mut |set| {
+        if set.len() < 2 {
+          return;
+        }
+        let r = Term::replace(l.clone(), set);
+        let t2 = model::model_text(&r);
+        let rs2 = ReplScope { names2: false, contents1: &["", "X"], contents2: &[], names1: false, enforce1: false, max: 1, over: 1, text: &t2 };
+        for_each_replset(&rs2, &mut |set2| {
+          if st.mine() {
+            visit(&Term::replace(r.clone(), set2));
+          }
+        });
+      });
+    }
+  }
   // nested concats in every grouping style
   for a in &sc.small_leaves {
     for b in &sc.small_leaves {
